@@ -67,7 +67,7 @@ def verif_seed():
 
 SEAM_REWRITES = [
     (r"\b(?:::)?std::sync::atomic::", "crate::verif_seam::atomic::"),
-    (r"\b(?:::)?std::sync::(Mutex|RwLock|Condvar|Barrier|mpsc)\b", r"crate::verif_seam::\1"),
+    (r"\b(?:::)?std::sync::(Mutex|RwLock|Condvar|Barrier|mpsc|Arc)\b", r"crate::verif_seam::\1"),
     (r"\b(?:::)?std::thread::(spawn|scope|yield_now|sleep|park|current|Builder|JoinHandle|Scope|ScopedJoinHandle|available_parallelism)\b",
      r"crate::verif_seam::thread::\1"),
 ]
@@ -347,7 +347,11 @@ COMPONENTS = {
     "real": ["all of graaf's library code compiled from /repo's working tree, including its unsafe blocks, "
              "chunking arithmetic, merge-path partitioning and its xoshiro256** PRNG"],
     "stubbed": ["std::thread::{spawn, scope}, JoinHandle::join, Mutex, AtomicBool -> shuttle 0.9.3 (all orderings "
-                "treated as SeqCst, preemption only at these operations)",
+                "treated as SeqCst, preemption at these operations)",
+                "Mutex / RwLock / Arc inside the seamed functions -> verif_seam wrappers: in 3 of 8 schedules one more "
+                "scheduling point right after every lock acquisition (the holder can be descheduled inside its critical "
+                "section) and before every Arc reference-count operation (clone, drop, strong_count, try_unwrap, "
+                "into_inner, get_mut, make_mut)",
                 "std::thread::available_parallelism -> verif_seam (configured CPU count or injected error)"],
     "not_present_in_graaf": ["disk / file I/O", "network", "clocks, timers, sleeps", "persistence / crash-restart",
                              "async tasks", "hash-randomised containers"],
